@@ -20,6 +20,8 @@ pub struct Out {
     pub dropped_in_write: bool,
 }
 
+pub const UNPOLLED: usize = 100000;
+
 /// poll `read` by hand; after the n-th `Pending` (0-based, counted over the whole session) drop the future if n is in `drops`
 pub fn run_cancel(compressed: bool, verify: bool, events: Vec<Ev>, wscript: Vec<WEv>, drops: &BTreeSet<usize>) -> Option<Out> {
     run_cancel_f(compressed, verify, events, wscript, vec![], drops)
@@ -44,6 +46,9 @@ pub fn run_cancel_f(compressed: bool, verify: bool, events: Vec<Ev>, wscript: Ve
         let mut budget = 1500usize;
         'session: loop {
             let before = script.lock().unwrap().injected;
+            // drop index 100000 (never reached as a suspension count): every read future is first created and dropped *before
+            // its first poll* — what a `select!` does with a losing branch; a future that was never polled has done nothing
+            if drops.contains(&UNPOLLED) { let f0 = Box::pin(framed.read()); drop(f0); }
             let mut fut = Box::pin(framed.read());
             loop {
                 budget -= 1;
@@ -159,6 +164,11 @@ pub fn run(ctx: &mut Ctx) {
                 let base = run_cancel(compressed, false, evs.clone(), ws.clone(), &BTreeSet::new());
                 let n = base.map(|b| b.suspensions).unwrap_or(0).min(if quick { 14 } else { 40 });
                 cancel_case(ctx, compressed, false, frames, &evs, ws, &BTreeSet::new());
+                // read futures created and dropped before their first poll: alone, and together with a dropped pending read
+                cancel_case(ctx, compressed, false, frames, &evs, ws, &[UNPOLLED].into_iter().collect());
+                // … also when whole frames are already waiting in the receive buffer (everything arrives in one piece)
+                cancel_case(ctx, compressed, false, frames, &[Ev::Data(stream.clone()), Ev::Pending, Ev::Eof], ws, &[UNPOLLED].into_iter().collect());
+                if n > 0 { cancel_case(ctx, compressed, false, frames, &evs, ws, &[0, UNPOLLED].into_iter().collect()); }
                 for i in 0..n {
                     cancel_case(ctx, compressed, false, frames, &evs, ws, &[i].into_iter().collect());
                     for j in (i + 1)..n {
